@@ -58,8 +58,23 @@ impl Clone for Node {
     }
 }
 
+struct UserScope;
+impl UserScope {
+    fn enter() -> Self {
+        at::USER_DEPTH.fetch_add(1, Relaxed);
+        UserScope
+    }
+}
+impl Drop for UserScope {
+    fn drop(&mut self) {
+        at::USER_DEPTH.fetch_sub(1, Relaxed);
+    }
+}
+
 impl Drop for Node {
     fn drop(&mut self) {
+        // everything the destructor body allocates is the harness's own bookkeeping
+        let _user = UserScope::enter();
         let c = self.canary.get();
         let vid = self.vid;
         with(|w| {
@@ -250,14 +265,20 @@ pub fn apply_act(a: &Act, me: Option<&Node>) {
                     let id = w.root_ids.remove(i);
                     w.dropped_targets.push(id);
                     let h = w.roots.remove(i);
-                    let empty = HAS_HOOKS && Rc::strong_count(&h) > 1 && w.ledger_unlinked(id);
+                    // measured: non-final drops, and final drops of values that own nothing and run
+                    // no script (so that nothing but the library's own drop path executes)
+                    let plain_value = w.objs[id].val.held.is_empty()
+                        && w.objs[id].val.weaks.is_empty()
+                        && h.script.borrow().is_empty()
+                        && !h.panics.get();
+                    let empty = HAS_HOOKS && w.ledger_unlinked(id) && (Rc::strong_count(&h) > 1 || plain_value);
                     (h, empty)
                 })
             });
             if let Some((h, empty)) = h {
-                let (a0, t0) = (at::ALLOC_CALLS.load(Relaxed), sh_trace_calls_now());
+                let (a0, t0) = (at::LIB_ALLOC_CALLS.load(Relaxed), sh_trace_calls_now());
                 drop(h);
-                let (a1, t1) = (at::ALLOC_CALLS.load(Relaxed), sh_trace_calls_now());
+                let (a1, t1) = (at::LIB_ALLOC_CALLS.load(Relaxed), sh_trace_calls_now());
                 if empty {
                     with(|w| w.c14.push((a1 - a0, t1 - t0)));
                 }
